@@ -174,11 +174,12 @@ Definition decode_bi (t : table) (b : pBI) : res (cBI0 * table) :=
   do u <- uuid_of_bytes (bi_uuid b); do _ <- fresh t u NBI;
   if bi_size b <? Z.of_nat (List.length (bi_contents b)) then Err EValue        (* initialized_size must be <= size *)
   else
-    do r <- map_res decode_block t (bi_blocks b);
+    (* the interval registers itself BEFORE its blocks are decoded (as sections and modules do) *)
+    do r <- map_res decode_block ((u, NBI) :: t) (bi_blocks b);
     let '(blocks, t1) := r in
     Ok ({| c0 := {| ci_uuid := u; ci_addr := if bi_has_addr b then Some (bi_addr b) else None; ci_size := bi_size b;
                     ci_contents := bi_contents b; ci_blocks := blocks; ci_symx := [] |};
-           c0_symx := bi_symx b |}, (u, NBI) :: t1).
+           c0_symx := bi_symx b |}, t1).
 
 Definition decode_section (t : table) (s : pSection) : res ((Z * list Z * list Z * list cBI0) * table) :=
   do u <- uuid_of_bytes (s_uuid s); do _ <- fresh t u NSec;
